@@ -246,6 +246,8 @@ def run(ctx):
     exprs['w_eq_rel'] = (('bin', '==', ('num', 2), ('bin', '<', ('num', 1), ('num', 1))), '2 == 1 < 1', ['2', '==', '1', '<', '1'])
     exprs['w_nested_ternary'] = (('tern', ('num', 0), ('tern', ('num', 0), ('num', 1), ('num', 2)), ('num', 3)), '0 ? 0 ? 1 : 2 : 3',
                                  ['0', '?', '0', '?', '1', ':', '2', ':', '3'])
+    # the ?: encoding uses 0x7eaddead as "no value": a literal with that value is taken for it
+    exprs['w_sentinel'] = (('tern', ('num', 1), ('num', 2125323949), ('num', 5)), '1 ? 2125323949 : 5', ['1', '?', '2125323949', ':', '5'])
     jobs = ''.join(compile_job(eid, 'const short v = %s;\nvoid main() { }\n' % text, args=['-O0'], want=['vars'])
                    for eid, (t, text, toks) in exprs.items())
     res = dict(zip(exprs.keys(), run_ccv(jobs)))
